@@ -73,11 +73,13 @@ def worker(case):
     else:
         _, which, order, cont, comments, models, _ = case
         ead = base(which)
-        text = ew.render(ead, order=list(order), continuation=cont, comments=comments, models=models)
+        rev = cont == "rev"
+        cont = None if rev else cont
+        text = ew.render(ead, order=list(order), continuation=cont, comments=comments, models=models, reverse_conns=rev)
         key = core.digest(text)
         conn_early = any(ead["items"][i]["kind"] == "conn" and any(ead["items"][j]["kind"] != "conn" for j in order[pos + 1:])
                          for pos, i in enumerate(order))
-        tag = "%s:models-%s%s%s" % (which, models, ":conn-before-use" if conn_early else "", ":continued" if cont else "")
+        tag = "%s:models-%s%s%s" % (which, models, ":conn-before-use" if conn_early else "", ":reversed-formals" if rev else ":continued" if cont else "")
         exp = ew.expected(ead, models)
         try:
             n = parse_text(text)
@@ -119,7 +121,7 @@ def cases(tier):
         nitems = len(base(which)["items"])
         for order in itertools.permutations(range(nitems)):
             for models in ("after", "before", "none"):
-                conts = (None, 3) if tier == "quick" else (None, 2, 3, 4)
+                conts = (None, 3, "rev") if tier == "quick" else (None, 2, 3, 4, "rev")
                 for cont in conts:
                     for comments in (False, True):
                         if tier == "quick" and comments and (cont or models != "after"):
